@@ -99,7 +99,8 @@ ANCHORS = [
     "gemseo.utils.pickle:from_pickle",
 ]
 MIN_COUNTERS = {
-    "quick": {"round_trips": 240, "round_trips_process": 40, "restored_under_a_different_hash_seed": 30,
+    "quick": {"round_trips": 240, "complex_step_comparisons": 315,
+              "complex_step_comparisons_with_nonzero_imaginary_outputs": 270, "round_trips_process": 40, "restored_under_a_different_hash_seed": 30,
               "restored_under_the_same_hash_seed": 10, "hash_sensitive_entries_restored_under_a_different_hash_seed": 24, "static_views_compared": 240, "behaviour_comparisons": 1200,
               "jacobian_comparisons": 500, "cached_input_replays": 100, "identity_walks": 230, "independence_checks": 1500,
               "counter_checks": 440, "counter_checks_with_nonzero_counters": 130, "purity_checks": 230,
@@ -109,7 +110,8 @@ MIN_COUNTERS = {
               "factory_classes_covered": 60, "grammar_op_sequences": 140,
               "grammar_op_sequences_with_cached_read_then_required_edit": 60, "grammar_ops_applied": 400,
               "grammar_validation_verdicts_compared": 2000},
-    "thorough": {"round_trips": 1350, "round_trips_process": 200, "restored_under_a_different_hash_seed": 170,
+    "thorough": {"round_trips": 1350, "complex_step_comparisons": 1000,
+                 "complex_step_comparisons_with_nonzero_imaginary_outputs": 950, "round_trips_process": 200, "restored_under_a_different_hash_seed": 170,
                  "restored_under_the_same_hash_seed": 39, "hash_sensitive_entries_restored_under_a_different_hash_seed": 70, "static_views_compared": 1350,
                  "behaviour_comparisons": 6600, "jacobian_comparisons": 3000, "cached_input_replays": 600,
                  "identity_walks": 1250, "independence_checks": 8500, "counter_checks": 2500,
@@ -815,6 +817,36 @@ def disc_lin(obj, x, all_=True):
     return {o: {i: (J.copy() if hasattr(J, "copy") else J) for i, J in ji.items()} for o, ji in jac.items()}
 
 
+CSTEP = 1e-30
+
+
+def complex_perturbed(x):
+    """``x + 1e-30j`` on every numeric array / float of an input dictionary (complex-step perturbation)."""
+    out = {}
+    for k, v in x.items():
+        if isinstance(v, np.ndarray) and v.dtype.kind in "fc":
+            out[k] = v + CSTEP * 1j
+        elif isinstance(v, float):
+            out[k] = complex(v, CSTEP)
+        else:
+            out[k] = v
+    return out
+
+
+def disc_exec_complex(obj, x):
+    """Outputs at ``x + 1e-30j`` split into real parts and complex-step directional derivatives ``imag / 1e-30``."""
+    out = disc_exec(obj, complex_perturbed(x))
+    res = {"re": {}, "d": {}}
+    for k, v in out.items():
+        a = np.asarray(v) if isinstance(v, (np.ndarray, float, complex, np.number)) else None
+        if a is None or a.dtype.kind not in "fciu":
+            res["re"][k] = v
+            continue
+        res["re"][k] = np.real(a).copy()
+        res["d"][k] = np.imag(a) / CSTEP
+    return res
+
+
 def apply_moment_discipline(entry, obj, moment, rng, rep):
     if moment == "fresh":
         return True
@@ -945,6 +977,29 @@ def judge_discipline(cx, entry, o, r, rng, moment):
                     can_lin = False
                 reset_status(o)
                 reset_status(r)
+    # (2c) complex-perturbed input: real parts and imag/1e-30 of the outputs must agree (non-default dtypes, data
+    # processors and rebuilt numerical cores only show there)
+    x = draw_inputs(entry, o, rng, 30)
+    c_o = attempt(disc_exec_complex, ref, x)
+    c_r = attempt(disc_exec_complex, r, x)  # always both, so that the counters keep evolving identically
+    if c_o[0] == "raise":
+        rep.count("complex_step_skipped_original_rejects_complex_inputs")
+        rep.observe("complex-inputs-rejected-by-the-original", {"entry": cx.entry, "error": c_o[1:]})
+        reset_status(ref)
+        d = same_outcome(c_o, c_r, tol, "complex-step")
+        if d:
+            cx.fail("behaviour", "complex-input-rejected-by-one-only", d, observed=c_r, expected=c_o)
+        reset_status(r)
+    else:
+        rep.count("complex_step_comparisons")
+        rep.count("behaviour_comparisons")
+        if any(np.any(np.asarray(v) != 0) for v in c_o[1]["d"].values()):
+            rep.count("complex_step_comparisons_with_nonzero_imaginary_outputs")
+        d = same_outcome(c_o, c_r, tol, "complex-step")
+        if d:
+            cx.fail("behaviour", "complex-step-outputs-differ:" + _path_head(d), d, observed=c_r, expected=c_o)
+        if c_r[0] == "raise":
+            reset_status(r)
     # (4) counters evolved identically (same operations from the same starting values)
     co, cr = strip_durations(discipline_counters(ref)), strip_durations(discipline_counters(r))
     rep.count("counter_checks")
@@ -1547,6 +1602,11 @@ def exercise_plain(kind, obj, payload):
                 out["results"].append(j)
                 if j[0] == "raise":
                     reset_status(obj)
+        if payload.get("complex_input") is not None:
+            res = attempt(disc_exec_complex, obj, payload["complex_input"])
+            out["results"].append(res)
+            if res[0] == "raise":
+                reset_status(obj)
         out["counters_after"] = attempt(lambda: strip_durations(discipline_counters(obj)))
     elif kind == "scenario":
         res = attempt(obj.execute, **payload["algo"])
@@ -1598,6 +1658,8 @@ def run_case_process(cx, case, entry, kind, o, rng, rep, scratch, tag, builder, 
     payload = {"linearize": entry.get("linearize", True), "algo": entry.get("algo"), "lin_all": entry.get("lin_all", True)}
     if kind == "discipline":
         payload["inputs"] = [draw_inputs(entry, o, rng, k) for k in range(3)]
+        payload["complex_input"] = draw_inputs(entry, o, rng, 30)
+        rep.count("complex_step_comparisons")
     elif kind in ("function",):
         payload["inputs"] = [np.round(rng.uniform(-1.5, 1.5, entry["n"]), 3) for _ in range(3)]
     elif kind == "problem":
